@@ -912,7 +912,7 @@ def rule_R5(ed, src, parts, ordinal):
     return (k, j)
 
 
-def rule_R11(ed, src, parts, ordinal, name):
+def rule_R11(ed, src, parts, ordinal, name, ghost=None):
     """the K-th `for` loop desugared as the Rust reference defines it (so that the loop can carry
     an invariant over a caller-supplied iterator type):
         for PAT in EXPR { BODY }
@@ -971,7 +971,11 @@ def rule_R11(ed, src, parts, ordinal, name):
     head = ""
     if counter:
         head += "let mut %s: usize = 0;\n" % counter
-    head += "let mut %s = IntoIterator::into_iter(%s);\nloop" % (name, expr)
+    head += "let mut %s = IntoIterator::into_iter(%s);\n" % (name, expr)
+    if ghost:
+        # (annotation only) a ghost name for what the iterator will yield, for the loop invariant
+        head += "let ghost %s = %s.remaining();\n" % (ghost, name)
+    head += "loop"
     ed.replace(toks[k].start, toks[e_hi].end, head, "R11", "for-loop desugared (Rust reference); iterator named `%s`%s" % (name, (", enumerate counter `%s` made explicit (R5)" % counter) if counter else ""))
     ed.insert(toks[j].end, " match %s.next() { Some(%s) => {" % (name, pat), "R11", "for-loop desugared")
     tail = ""
@@ -1490,7 +1494,7 @@ class Unit:
                 elif r == "R5":
                     rule_R5(ed, src, parts, int(args[1]) if len(args) > 1 else 1)
                 elif r == "R11":
-                    rule_R11(ed, src, parts, int(args[1]), args[2] if len(args) > 2 else "verif_it%s" % args[1])
+                    rule_R11(ed, src, parts, int(args[1]), args[2] if len(args) > 2 else "verif_it%s" % args[1], args[3] if len(args) > 3 else None)
                 elif r == "R9":
                     if len(args) > 1 and args[1] == "all":
                         # every `.map(..)` of the body (they are all Meta::map in the function the
